@@ -509,5 +509,27 @@ def six_sigma_miss(counts: dict, probs: dict, shots: int) -> list[str]:
     return out
 
 
+def binom_tail_miss(counts: dict, probs: dict, shots: int, alpha: float = 1e-12) -> list[str]:
+    """Bitstrings whose observed count has an EXACT binomial tail probability below `alpha` under the
+    expected distribution (independent shots).  Unlike the 6-sigma band (a normal approximation, kept
+    as a warning) this is a hard criterion: on code that samples the expected distribution it fires
+    with probability < `alpha` per outcome, so it may fail the check (e.g. bit flips that are
+    correlated within a shot keep every per-bit rate and still shift the joint counts by dozens of
+    standard deviations)."""
+    from scipy.stats import binom
+
+    out = []
+    for k in sorted(set(counts) | set(probs)):
+        pk = min(max(float(probs.get(k, 0.0)), 0.0), 1.0)
+        c = int(counts.get(k, 0))
+        if pk <= 0.0 or pk >= 1.0:
+            continue                      # probability-zero outcomes are reported as impossible elsewhere
+        lo = float(binom.cdf(c, shots, pk))        # P(X <= c)
+        hi = float(binom.sf(c - 1, shots, pk))     # P(X >= c)
+        if min(lo, hi) < alpha:
+            out.append(f"{k}: count {c} of {shots} at probability {pk:.6g} (tail {min(lo, hi):.2e})")
+    return out
+
+
 def deadline(start: float, seconds: float) -> bool:
     return time.time() - start > seconds
